@@ -59,6 +59,14 @@ fn pick(strata: &[St], neg_mirror: bool, s: u8, u: f64) -> f64 {
 
 /// real part for function `fun` from stratum material; `is32` narrows ranges to what f32 can hold
 pub fn real_part(fun: usize, is32: bool, s: u8, u: f64) -> f64 {
+    // one stratum in 13: exact special points inside the domain (0, +-1, 2, +-0.5, 3)
+    if s % 13 == 12 && fun < 24 {
+        let f = UNARY[fun];
+        let cand: Vec<f64> = [0.0, 1.0, -1.0, 2.0, 0.5, -0.5, 3.0, -2.0].iter().copied().filter(|x| crate::prog::in_domain(f, *x)).collect();
+        if !cand.is_empty() {
+            return cand[((u * cand.len() as f64) as usize).min(cand.len() - 1)];
+        }
+    }
     let big = if is32 { 40.0 } else { 300.0 };
     if fun >= 24 {
         return match fun {
